@@ -28,7 +28,7 @@ K2_SRC = '''def main(a, g):
 
 def known_k1(ctx):
     """early return in a branch -> phantom definition (nast.py has no flow termination)"""
-    src, reads, binds, obs = rc.analyse_program(ctx, K1_TREE, 'func')
+    src, reads, binds, obs = rc.analyse_program(ctx, K1_TREE, 'func', None)
     runs, ex = rc.enumerate_decisions(rc.Oracle(pygen.render_instrumented(K1_TREE, 'func'), 'func', cont=True), 50)
     bad = c02.direct_c03(obs, reads, runs, ex)
     return any(b.startswith('phantom') for b in bad)
